@@ -79,7 +79,10 @@ def gen(rng, tier, i):
         if len(batch) == 12: cmd(';'.join(batch)); batch = []
     if batch: cmd(';'.join(batch))
     nticks = rng.randint(8, 30)
+    clock_steps = rng.random() < 0.15     # the wall clock is set back (or far ahead) between ticks: heart beats count ticks, not seconds
     for k in range(nticks):
+        if clock_steps and rng.random() < 0.3:
+            p.cycle('adv %d' % (rng.choice((-1, -2, -31, -3600, -2000000, 100000)) * 1000000))
         if cls == 'midround' and rng.random() < 0.3:
             p.cycle('firetimer %d 2000000' % rng.choice((20, 60, 150, 400, 900)), tick())
         else:
